@@ -1,5 +1,4 @@
-import MxlVerif.Lemmas.C12Sym
-import MxlVerif.Model.C12
+import MxlVerif.Lemmas.C12Main
 namespace Mxl.C12
 
 /-- substitution lemma (positional): evaluating a library body after `fn_to_sympy` has put
@@ -12,5 +11,29 @@ theorem C12_subst_args (ρ : Name → Rat) (es : List SExpr) (b : BExpr) :
 theorem C12_subst_syms (ρ : Name → Rat) (σ : Name → SExpr) (e : SExpr) :
     evalS ρ (substSym σ e) = evalS (fun n => evalS ρ (σ n)) e :=
   evalS_substSym ρ σ e
+
+/-- **symbolic equations = numeric derivatives.**  For every well-formed surrogate-free
+    model whose functions translate (`SContent`), every time and every state: if
+    `to_symbolic_model` succeeds with equations `es` and `Model.__call__` returns `ds`, then
+    evaluating `es` — each variable symbol at its state value, each parameter symbol at its
+    value — gives exactly `ds`, in `var_names` order.  (Declaration order, initial
+    assignments, parameter-only derived quantities baked into the cache, numeric /
+    computed / state-dependent coefficients are all covered: `callRhs` is the shared numeric
+    core.) -/
+theorem C12_eqs_sound (sc : SContent) (hwf : sc.wf = true) (t : Rat) (xs : List Rat)
+    (es : List SExpr) (ds : List Rat)
+    (hs : toSymbolic sc = .ok es) (hn : callRhs sc.toContent t xs = .ok ds) :
+    ∃ cache, createCache sc.toContent = .ok cache ∧ es.map (evalS (symEnv sc cache xs)) = ds :=
+  eqs_sound sc hwf t xs es ds hs hn
+
+/-- **formal derivative, second-order expansion.**  Along any symbol `x` and for every step
+    `h` for which no denominator vanishes at either point,
+    `e(x+h) = e(x) + h·(D x e)(x) + h²·remV(h)` where `remV` is an explicit rational function
+    of `h` (polynomial when `e` is).  This is the difference-quotient characterisation of the
+    derivative: `(e(x+h) − e(x))/h − (D x e)(x) = h·remV(h)`. -/
+theorem C12_formal_deriv_correct (ρ : Name → Rat) (x : Name) (h : Rat) (e : SExpr)
+    (h0 : DenOK ρ e) (h1 : DenOK (upd ρ x (ρ x + h)) e) :
+    evalS (upd ρ x (ρ x + h)) e = evalS ρ e + h * evalS ρ (D x e) + h * h * remV ρ x h e :=
+  taylor2 ρ x h e h0 h1
 
 end Mxl.C12
